@@ -953,8 +953,33 @@ func Run(r *common.Run) error {
 		if err != nil {
 			return err
 		}
+		// every kind of witness is executed again the way it was produced
+		executed, scenario := 0, ""
 		for _, l := range lines {
 			f := strings.Fields(l)
+			if len(f) > 0 && strings.HasPrefix(f[0], "#scenario=") {
+				scenario = strings.TrimSuffix(strings.TrimPrefix(f[0], "#scenario="), ":")
+				continue
+			}
+			if strings.HasPrefix(l, "#the same xml.StartElement") {
+				scenario = "same-start-twice"
+				continue
+			}
+			if len(f) == 8 && f[0] == "C05" && f[1] == "fault" {
+				cfg := cfgT{ns: f[3]}
+				if f[4] != "-" {
+					b, _ := common.UnHex(f[4])
+					cfg.from = string(b)
+				}
+				k, _ := strconv.Atoi(f[5])
+				ts, err1 := decToks(f[6])
+				nx, err2 := decToks(f[7])
+				if err1 == nil && err2 == nil && k <= len(ts) && len(nx) > 0 {
+					c.fault(cfg, f[2], ts, k, nx)
+					executed++
+				}
+				continue
+			}
 			if len(f) != 8 || f[0] != "C05" || f[1] != "tx" {
 				continue
 			}
@@ -967,22 +992,42 @@ func Run(r *common.Run) error {
 			if f[5] != "-" {
 				ts, err := decToks(f[5])
 				if err != nil || len(ts) != 1 {
-					return fmt.Errorf("bad start token in replay")
+					continue
 				}
-				s := ts[0].(xml.StartElement)
+				s, ok := ts[0].(xml.StartElement)
+				if !ok {
+					continue
+				}
 				cl.start = &s
 			}
 			ts, err := decToks(f[6])
 			if err != nil {
-				return err
+				continue // a line that was clipped for the report
 			}
 			cl.toks = ts
-			c.one(cfg, cl, "replay")
+			if scenario == "" && len(lines) == 1 {
+				c.one(cfg, cl, "replay")
+				executed++
+			}
 		}
-		if len(lines) > 1 {
-			// a concurrent witness: run the schedule search again with the same seed
-			for i := 0; i < 20; i++ {
-				c.concurrent(cfgs[i%2], r.Rnd, 8, 6, i)
+		switch {
+		case scenario == "cross":
+			for _, n := range []int{300, 3000} {
+				c.cross(n, []string{"enc", "enc"})
+				c.cross(n, []string{"enc", "iq", "enc"})
+				c.cross(n, []string{"iq", "enc"})
+			}
+		case scenario == "same-start-twice":
+			for _, cfg := range cfgs {
+				c.sameStartTwice(cfg)
+			}
+		case executed == 0 || len(lines) > 1:
+			// a witness of the concurrent runs: the schedule search again, same seed
+			for i := 0; i < 30; i++ {
+				c.concurrent(cfgs[i%2], r.Rnd, 2+r.Rnd.Intn(15), 2+r.Rnd.Intn(6), i)
+			}
+			for i := 0; i < 15; i++ {
+				c.multiSession(r.Rnd, i)
 			}
 		}
 		return nil
